@@ -23,6 +23,11 @@ import (
 )
 
 // TShape is a closed type expression of the grammar of C11 as plain data.
+// tag texts: whatever a raw string can hold (no backquote) — dots, commas, brackets, percent signs and printf verbs, @names,
+// escaped quotes and backslashes inside the value, non-ASCII
+var c11Tags = []string{"", "", `json:"a"`, `json:"a.b" x:"1"`, `doc:"v1.2,omitempty"`, `validate:"@float[0,100%]"`, `layout:"%Y-%m-%d"`, `like:"100%%"`,
+	`name:"é %v @x"`, `re:"\\d+\\.\\d+"`, `q:"a\"b"`, `k:"x y z"`, `path:"a/b.c" validate:"@string[1,]"`, `fmt:"%s%d%!"`}
+
 type TShape struct {
 	K      string   `json:"k"`                // basic error any named ptr slice array map chan struct
 	Name   string   `json:"name,omitempty"`   // basic kind name / type name
@@ -446,7 +451,7 @@ func genShape(r *Rng, depth int) TShape {
 		t := TShape{K: "struct"}
 		usedEmb := map[string]bool{}
 		for i := 0; i < n; i++ {
-			f := TField{Name: fmt.Sprintf("F%d", i), Tag: Pick(r, []string{"", `json:"a"`, `json:"a.b" x:"1"`, `doc:"v1.2,omitempty"`})}
+			f := TField{Name: fmt.Sprintf("F%d", i), Tag: Pick(r, c11Tags)}
 			nm := Pick(r, []string{"Item", "Obj"})
 			if r.Chance(20) && !usedEmb[nm] {
 				usedEmb[nm] = true
@@ -708,7 +713,7 @@ func genRShape(r *Rng, depth int, key bool) RShape {
 		t := RShape{K: "struct"}
 		for i := 0; i < n; i++ {
 			t.Args = append(t.Args, genRShape(r, depth-1, false))
-			t.Tags = append(t.Tags, Pick(r, []string{"", `json:"a"`, `json:"a.b" x:"1"`}))
+			t.Tags = append(t.Tags, Pick(r, c11Tags))
 		}
 		return t
 	}
@@ -763,7 +768,7 @@ func init() {
 				}
 				return c
 			},
-			Rule: "random closed type expressions (depth ≤ 4) built with the go/types constructors over basics, error, any, named types of seven packages (two pairs with clashing last segments, time, versioned paths), generic instantiations with basic / named / nested-generic arguments, pointers, slices, arrays, maps, channels, structs with tags (some containing dots) and embedded fields, rendered with snippet.ID through a real writer into three target packages, some of which already bound clashing names; compared with the model byte for byte; oracle: the text type-checks in the target package with the registered imports to the same fully qualified type",
+			Rule: "random closed type expressions (depth ≤ 4) built with the go/types constructors over basics, error, any, named types of seven packages (two pairs with clashing last segments, time, versioned paths), generic instantiations with basic / named / nested-generic arguments, pointers, slices, arrays, maps, channels, structs with tags (dots, commas, brackets, percent signs and printf verbs, @names, escaped quotes and backslashes, non-ASCII) and embedded fields, rendered with snippet.ID through a real writer into three target packages, some of which already bound clashing names; compared with the model byte for byte; oracle: the text type-checks in the target package with the registered imports to the same fully qualified type",
 		},
 		{
 			Name: "types-enum", New: func() Case { return &tlitCase{} },
